@@ -34,6 +34,24 @@ Theorem C14_source_loop_refines_state_machine (Name I Out : Type) (name_eqb : Na
 Proof. intros Heq H. rewrite (zrun_f_ext Name Out name_eqb vsize 3 gen_body (gen_body_tie Name Out name_eqb vsize Heq)). exact (reconstruct_refines Name I Out name_eqb Heq f vsize batches ys H). Qed.
 Print Assumptions C14_source_loop_refines_state_machine.
 
+(* end to end over the regenerated code: on the batches the volume batch sampler delivers (C13), for any batch size, the
+   loop body as it stands in the source yields every volume exactly once, in order, as a completely filled buffer whose
+   k-th slot is the processed output of the k-th slice *)
+Theorem C14_source_loop_on_sampler_batches (Name I Out : Type) (name_eqb : Name -> Name -> bool) (f : I -> Out) (vsize : Name -> nat)
+  (bs : nat) (vols : list (Name * list I)) :
+  (forall a b, name_eqb a b = true <-> a = b) -> (0 < bs)%nat ->
+  NoDup (map fst vols) -> Forall (fun v => snd v <> [] /\ vsize (fst v) = length (snd v)) vols ->
+  option_map snd (zrun_f Name Out name_eqb vsize 3 gen_body (zst0 Name Out)
+                    (map (fun b => (fst b, map f (snd b))) (batches_of Name I (map (fun v => (fst v, chunk_list bs (snd v))) vols))))
+  = Some (map (fun v => (fst v, map Some (map f (snd v)))) vols).
+Proof.
+  intros Heq Hbs Hnd Hgood.
+  rewrite (C14_source_loop_refines_state_machine Name I Out name_eqb f vsize _ _ Heq
+             (C14_batch_size_irrelevant Name I Out name_eqb f vsize bs vols Heq Hbs Hnd Hgood)).
+  rewrite map_map. reflexivity.
+Qed.
+Print Assumptions C14_source_loop_on_sampler_batches.
+
 Local Open Scope nat_scope.
 Example C14_example :
   reconstruct nat nat nat Nat.eqb (fun x => x * 2) (fun nm => nth nm [3; 2] 0)
